@@ -29,10 +29,7 @@ def gen(rng, tier):
     ndefs = 14 if tier == "quick" else 400
     for _ in range(ndefs):
         doc = defgen.rnd_definition(rng)
-        try:
-            dobj = docs.definition_py(doc)
-        except Exception:  # noqa: BLE001
-            continue
+        dobj = defgen.try_build(doc)
         pkts = []
         for _j in range(8):
             pkts += defgen.fit_packet(dobj, defgen.rnd_packet(rng, rng.randrange(1, 30)))[:rng.choice([1, 2])]
